@@ -127,6 +127,8 @@ std::vector<std::string>& split(std::vector<std::string>* into,
 
             into->emplace_back(last, it);
             last = it + sep.size();
+            // continue scanning behind the separator (the loop adds one)
+            it = last - 1;
         }
     }
 
